@@ -601,6 +601,7 @@ func c14R6(c *Ctx) {
 	c14R9(c)
 	c14R10(c)
 	c14R11(c)
+	c14R12(c)
 	c14R6As(c, c.R.Rule("R6", "K6 name index follows renames: pipeline.Service.Update frees the OLD name (read before the config is replaced) and reserves the new one", 2))
 }
 
@@ -970,6 +971,95 @@ func c14R11(c *Ctx) {
 			return false, false
 		}), "Workers >= 0")
 		c.Dominated(r, "processor.Service.updateConfig: persists only a non-negative worker count", sets, g, "the cfg.Workers >= 0 edge")
+	}
+}
+
+// c14R12: F73 and F74 (known findings).
+//
+//	F73  connector.Service.Create never checks whether the id already exists: provisioning pipeline `a` with connector
+//	     `b:src` and pipeline `a:b` with connector `src` both yield the connector id `a:b:src`; the second Create silently
+//	     overwrites the first pipeline's connector (settings, ownership, one shared position).
+//	F74  the orchestrators' compensations write through the call's own transaction. After a FAILED Commit (badger
+//	     conflict, SQL driver) or a cancelled request context that transaction no longer accepts writes — only the
+//	     in-memory driver of the tests does —: the compensation fails, rollback.MustExecute panics (there is no recovery
+//	     interceptor: the process dies), and memory keeps the state it was supposed to undo.
+func c14R12(c *Ctx) {
+	r := c.R.Rule("R12", "K3 create refuses an existing id, and a failed commit can still be compensated: connector.Service.Create persists only behind the id-not-present edge of a lookup in s.connectors; behind the failure edge of txn.Commit the ConnectorOrchestrator's Create/Update/Delete obtain a usable transaction (NewTransaction) for their compensations", 4)
+	if fn := c.SSA(r, pConn, "(*Service).Create"); fn != nil {
+		mapF := c.Field(r, pConn, "Service", "connectors")
+		set := c.Fn(r, pConn, "(*Store).Set")
+		g := kit.NewGates()
+		for _, b := range fn.Blocks {
+			for _, in := range b.Instrs {
+				if lk, ok := in.(*ssa.Lookup); ok && lk.CommaOk && kit.IsFieldLoad(lk.X, mapF) {
+					if refs := lk.Referrers(); refs != nil {
+						for _, u := range *refs {
+							if ex, ok := u.(*ssa.Extract); ok && ex.Index == 1 {
+								g.AddEdges(kit.CondEdges(ex, false), "id not present")
+							}
+						}
+					}
+				}
+			}
+		}
+		sets := kit.CallsTo(fn, Set(set))
+		ok := !g.Empty() && len(sets) > 0
+		for _, st := range sets {
+			if pass, _ := kit.MustPass(st, g); !pass {
+				ok = false
+			}
+		}
+		c.R.Check(ok, r, "connector.Service.Create: an existing id is refused", c.Pos(fn.Pos()), "behind the not-present edge", "connector.Service.Create stores the new instance without looking the id up in s.connectors: two pipelines whose ids and connector ids concatenate to the same connector id (`a`+`b:src`, `a:b`+`src`) overwrite each other's connector — Init returns nil, one pipeline's source now belongs to the other with its settings, both share one position", true)
+	}
+	commit := c.W.ExtMethod("github.com/conduitio/conduit-commons/database", "Transaction", "Commit")
+	for _, m := range []string{"Create", "Update", "Delete"} {
+		fn := c.SSA(r, pOrch, "(*ConnectorOrchestrator)."+m)
+		if fn == nil || commit == nil {
+			continue
+		}
+		fresh := false
+		for _, call := range kit.CallsTo(fn, c.Fam(commit)) {
+			for _, e := range kit.FailEdges(call) {
+				for _, b := range fn.Blocks {
+					if !(b == e.To || e.To.Dominates(b)) {
+						continue
+					}
+					for _, in := range b.Instrs {
+						if ci, ok := in.(ssa.CallInstruction); ok {
+							if ci.Common().IsInvoke() && ci.Common().Method.Name() == "NewTransaction" {
+								fresh = true
+							}
+							if h := ci.Common().StaticCallee(); h != nil && h.Pkg == fn.Pkg {
+								for _, hb := range h.Blocks {
+									for _, hin := range hb.Instrs {
+										if hc, ok := hin.(ssa.CallInstruction); ok && hc.Common().IsInvoke() && hc.Common().Method.Name() == "NewTransaction" {
+											fresh = true
+										}
+									}
+								}
+							}
+						}
+					}
+				}
+			}
+		}
+		// or: the deferred rollback is handed a context that is not the finished transaction's (a helper that ends the transaction)
+		for _, b := range fn.Blocks {
+			for _, in := range b.Instrs {
+				if d, ok := in.(*ssa.Defer); ok {
+					if h := d.Call.StaticCallee(); h != nil && h.Pkg == fn.Pkg {
+						for _, hb := range h.Blocks {
+							for _, hin := range hb.Instrs {
+								if hc, ok := hin.(ssa.CallInstruction); ok && hc.Common().IsInvoke() && hc.Common().Method.Name() == "NewTransaction" {
+									fresh = true
+								}
+							}
+						}
+					}
+				}
+			}
+		}
+		c.R.Check(fresh, r, "ConnectorOrchestrator."+m+": a failed commit's compensations run on a usable transaction", c.Pos(fn.Pos()), "fresh transaction", "when txn.Commit fails (or the request context is cancelled) the rollback closures still write through the call's own transaction context: badger has discarded it and the SQL drivers marked it done, so the compensating service call fails, rollback.MustExecute panics — no recovery interceptor, the process dies — and memory keeps the state the call was supposed to undo (only the in-memory driver the unit tests use keeps accepting writes)", true)
 	}
 }
 
